@@ -1,6 +1,16 @@
-(* C04 — placeholder theorem set, extended below in later commits. *)
+(* C04 — Thrift in-place edits change exactly the addressed element.
+   Statements only; proofs are in proofs/ThriftEditProofs.v.  The edit model (model/ThriftEdit.v: ast_set,
+   ast_unset, ast_step) is what Check04 replays every history on; the implementation's bytes after each step
+   must equal [encode] of the model state, so the theorems below are facts about every state the check accepts.
+   Definitions used in the statements (proofs/ThriftEditProofs.v):
+     child_replaced s c c' v v'   v' = v with the child c addressed by step s replaced by c' (same slot)
+     child_inserted front s x v v' v' = v with ONE new child x added: children' = ins front x children
+     child_removed s v v'          v' = v without the first child addressed by s
+     disjoint p q                  p and q diverge at a position where the steps certainly address different children
+     lsub r                        the lookup result r without its byte offset
+     set_compat / ins_ok           API contract of an insertion (declared element type, int16 id, well-formed key, count < 2^31) *)
 From Coq Require Import ZArith List Bool Lia.
-From DG Require Import ProtoWireRef ThriftWire ThriftWireProofs.
+From DG Require Import ProtoWireRef CaseFormat ThriftWire ThriftWireProofs ThriftGeneric ThriftGenericProofs ThriftEdit ThriftEditProofs.
 Import ListNotations.
 Local Open Scope Z_scope.
 
@@ -8,3 +18,115 @@ Theorem C04_results_decodable :
   forall v, wf v = true -> forall d r, (depth v <= d)%nat -> decode d (type_of v) (encode v ++ r) = Some (v, r).
 Proof. exact decode_encode. Qed.
 Print Assumptions C04_results_decodable.
+
+(* the result of a set is a well-formed value (hence, by C04_results_decodable, its bytes decode to it) *)
+Theorem C04_ast_set_wf : forall front p x v v' ex,
+  wf v = true -> wf x = true -> set_compat p x v = true -> ast_set front p x v = Some (v', ex) -> wf v' = true.
+Proof. exact ast_set_wf. Qed.
+Print Assumptions C04_ast_set_wf.
+
+Theorem C04_ast_set_keeps_type : forall front p x v v' ex, ast_set front p x v = Some (v', ex) -> type_of v' = type_of v.
+Proof. exact ast_set_type. Qed.
+Print Assumptions C04_ast_set_keeps_type.
+
+(* 'existed' = the path addressed an element *)
+Theorem C04_ast_set_existed : forall front p x v v' ex, ast_set front p x v = Some (v', ex) ->
+  (ex = true <-> exists sub off, lookup v 0 p = LFound sub off).
+Proof. exact ast_set_existed. Qed.
+Print Assumptions C04_ast_set_existed.
+
+(* an existing element is replaced: the path now finds x ... *)
+Theorem C04_ast_set_replaces : forall front p x v v', ast_set front p x v = Some (v', true) ->
+  exists off, lookup v' 0 p = LFound x off.
+Proof. exact ast_set_get. Qed.
+Print Assumptions C04_ast_set_replaces.
+
+(* ... and nothing a disjoint path can see has changed (same sub-value, or same not-found, or same error) *)
+Theorem C04_ast_set_frame : forall front p q x v v', ast_set front p x v = Some (v', true) -> disjoint p q ->
+  lsub (lookup v' 0 q) = lsub (lookup v 0 q).
+Proof. exact ast_set_frame. Qed.
+Print Assumptions C04_ast_set_frame.
+
+(* a missing element is inserted into exactly the addressed container c (reached by the path minus its last
+   step): c becomes c' whose children are [ins front new (children c)] (count + 1, old ones in order), and
+   the whole result is "v with c replaced by c'" — to which the frame theorem above applies *)
+Theorem C04_ast_set_insert : forall front p x v v', ast_set front p x v = Some (v', false) ->
+  exists pre s c c' off, p = pre ++ [s] /\ lookup v 0 pre = LFound c off /\ lookup1 c s = LNotFound /\
+                     child_inserted front s x c c' /\ nchildren c' = nchildren c + 1 /\
+                     ast_set front pre c' v = Some (v', true).
+Proof. exact ast_set_insert. Qed.
+Print Assumptions C04_ast_set_insert.
+
+Theorem C04_ins_keeps_order : forall (A : Type) front (a : A) l, ins front a l = a :: l \/ ins front a l = l ++ [a].
+Proof. exact @ins_cases. Qed.
+Print Assumptions C04_ins_keeps_order.
+
+(* unset *)
+Theorem C04_ast_unset_wf : forall p v v' r, wf v = true -> ast_unset p v = DOk v' r -> wf v' = true.
+Proof. exact ast_unset_wf. Qed.
+Print Assumptions C04_ast_unset_wf.
+
+Theorem C04_ast_unset_absent_id : forall p v v', ast_unset p v = DOk v' false -> v' = v.
+Proof. exact ast_unset_absent_id. Qed.
+Print Assumptions C04_ast_unset_absent_id.
+
+Theorem C04_ast_unset_false_means_absent : forall p v v', ast_unset p v = DOk v' false ->
+  exists pre s post, p = pre ++ s :: post /\
+    ((post <> [] /\ exists c, vlookup v pre = LFound c 0 /\ vlookup1 c s = LNotFound)
+     \/ (post = [] /\ exists c, vlookup v pre = LFound c 0 /\ child_absent s c)).
+Proof. exact ast_unset_false_absent. Qed.
+Print Assumptions C04_ast_unset_false_means_absent.
+
+Theorem C04_ast_unset_removes_one : forall front p v v', ast_unset p v = DOk v' true ->
+  exists pre s c c' off, p = pre ++ [s] /\ lookup v 0 pre = LFound c off /\ child_removed s c c' /\
+                         nchildren c = nchildren c' + 1 /\ ast_set front pre c' v = Some (v', true).
+Proof. exact ast_unset_removes_one. Qed.
+Print Assumptions C04_ast_unset_removes_one.
+
+(* histories: every intermediate state is well-formed and round-trips through encode / decode *)
+Theorem C04_history_wf : forall front ops v, wf v = true -> history_ok front v ops = true ->
+  Forall (fun s => wf s = true) (ast_states front v ops) /\ wf (fold_left (ast_step front) ops v) = true.
+Proof. exact history_wf. Qed.
+Print Assumptions C04_history_wf.
+
+Theorem C04_history_roundtrip : forall front ops v, wf v = true -> history_ok front v ops = true ->
+  Forall (fun s => forall r, decode (depth s) (type_of s) (encode s ++ r) = Some (s, r)) (ast_states front v ops).
+Proof. exact history_roundtrip. Qed.
+Print Assumptions C04_history_roundtrip.
+
+Theorem C04_failed_op_unchanged : forall front v o,
+  match o with OSet p x => ast_set front p x v = None | OUnset p => ast_unset p v = DErr end -> ast_step front v o = v.
+Proof. exact failed_op_unchanged. Qed.
+Print Assumptions C04_failed_op_unchanged.
+
+(* ---- non-vacuity: histories with repeated edits of one element, first / last position, empty containers ---- *)
+Definition ex4_v : tval :=
+  VStruct [ (2, VList T_I32 [VI32 1; VI32 2; VI32 3]);
+            (1, VMap T_STRING T_I64 []);
+            (3, VStruct [ (1, VString [97]) ]) ].
+Definition ex4_ops : list eop :=
+  [ OSet [PField 2; PIndex 0] (VI32 10);                    (* replace first *)
+    OSet [PField 2; PIndex 0] (VI32 11);                    (* same element again *)
+    OSet [PField 2; PIndex 2] (VI32 12);                    (* replace last *)
+    OSet [PField 2; PIndex 3] (VI32 13);                    (* one past the end: insert *)
+    OSet [PField 1; PStrKey [107]] (VI64 7);                (* insert into an empty map *)
+    OSet [PField 3; PField 9] (VByte 1);                    (* missing field of a nested struct *)
+    OUnset [PField 1; PStrKey [120]];                       (* absent key: no change *)
+    OUnset [PField 1; PStrKey [107]];                       (* back to the empty map *)
+    OUnset [PField 2; PIndex 0];
+    OSet [PField 7; PField 1] (VI32 0);                     (* absent-inner: error, unchanged *)
+    OSet [PField 2; PStrKey [1]] (VI32 0) ].                (* wrong kind: error, unchanged *)
+
+Example ex4_wf : wf ex4_v = true. Proof. vm_compute. reflexivity. Qed.
+Example ex4_history_ok : history_ok true ex4_v ex4_ops = true. Proof. vm_compute. reflexivity. Qed.
+Example ex4_final : fold_left (ast_step true) ex4_ops ex4_v =
+  VStruct [ (2, VList T_I32 [VI32 11; VI32 2; VI32 12]);
+            (1, VMap T_STRING T_I64 []);
+            (3, VStruct [ (9, VByte 1); (1, VString [97]) ]) ].
+Proof. vm_compute. reflexivity. Qed.
+Example ex4_existed : ast_set true [PField 2; PIndex 1] (VI32 5) ex4_v =
+  Some (VStruct [ (2, VList T_I32 [VI32 1; VI32 5; VI32 3]); (1, VMap T_STRING T_I64 []); (3, VStruct [ (1, VString [97]) ]) ], true).
+Proof. vm_compute. reflexivity. Qed.
+Example ex4_disjoint : disjoint [PField 2; PIndex 1] [PField 2; PIndex 2] /\ disjoint [PField 2; PIndex 1] [PField 3; PField 1].
+Proof. cbn. split; [right; split; [reflexivity|left; lia]|left; lia]. Qed.
+Example ex4_compat_rejects_wrong_type : set_compat [PField 2; PIndex 3] (VI64 0) ex4_v = false. Proof. vm_compute. reflexivity. Qed.
